@@ -106,6 +106,10 @@ fn run<T: Scalar>(spec: &Spec, xs: &[f64], ys: &[f64], rng: &mut Rng, out: &mut 
         }
         reference.push(rb);
     }
+    // the twins go away before anything else is built (a shared table kept alive by them would
+    // mask an interference between differently parameterised instances)
+    drop(a);
+    drop(b);
     // --- "any number of times" includes zero: a twin that is polled only now and then -------------
     {
         let mut c = build_plain::<T>(spec);
